@@ -54,9 +54,9 @@ def term_cases(tier):
     if tier == "thorough":
         return gen.corpus(tier, families=FAMS, depth=2, coarse=True)
     terms = gen.corpus(tier, families=FAMS, depth=2, coarse=2)
-    # quick: depth 1 complete, then every second depth-2 term of the (already pruned) pool in enumeration order
+    # quick: depth 1 complete, then every second depth-1 term and every fifth depth-2 term of the (already pruned) pool, in enumeration order
     n1 = len(gen.expand(gen.all_leaves(tier), gen.all_leaves(tier), tier, FAMS))
-    return terms[:n1] + terms[n1::2]
+    return terms[:n1:2] + terms[n1::5]
 
 
 def memo_pool():
